@@ -169,6 +169,17 @@ def run(ctx):
                                         okk = True
                                 if not okk:
                                     why = "not guarded by a found-flag that is still False"
+                                else:
+                                    # ... and it is the verdict after the input ran out, not a complaint about a record:
+                                    # the raise stands after the record loop, not inside it
+                                    pmf_ = prog.parents(pf)
+                                    cur_ = stn
+                                    while id(cur_) in pmf_:
+                                        cur_ = pmf_[id(cur_)]
+                                        if isinstance(cur_, (ast.For, ast.While)):
+                                            okk = False
+                                            why = "raised inside the record loop (a malformed header or record, not the end of the input)"
+                                            break
                 if okk:
                     allowed += 1
                     ctx.ok("R3", f"{short}: LoadError at {s[1]}:{s[2]} is raised only while nothing was found", f"{g.module.relpath}:{h.lineno}")
